@@ -2,8 +2,10 @@
 mod crash;
 mod hist;
 mod images;
+mod lin;
 mod props;
 mod report;
+mod sched;
 mod seq;
 mod simio;
 mod spec;
